@@ -203,13 +203,13 @@ pub fn run_one(sc: &J) -> J {
         let mp = MockProver::run(k, &circuit, vec![vec![], vec![]]).map_err(|e| format!("synth:{e:?}"))?;
         let pi_self = self_instance(&mp);
         let mp2 = MockProver::run(k, &circuit, vec![vec![], pi_self.clone()]).map_err(|e| format!("synth:{e:?}"))?;
-        let sat = mp2.verify().is_ok();
+        let sat = verify_ok(&mp2);
         // with the off-circuit encoding and its single-position edits
         let mut enc_sat = None;
         let mut edits_rejected = None;
         if let Some(e) = &enc {
             let m = MockProver::run(k, &circuit, vec![vec![], e.clone()]).map_err(|e| format!("synth:{e:?}"))?;
-            enc_sat = Some(m.verify().is_ok());
+            enc_sat = Some(verify_ok(&m));
             let mut all = true;
             let n = e.len();
             let picks: Vec<usize> = if n <= 6 { (0..n).collect() } else { vec![0, 1, n / 2, n - 2, n - 1] };
@@ -217,7 +217,7 @@ pub fn run_one(sc: &J) -> J {
                 let mut e2 = e.clone();
                 e2[i] += F::ONE;
                 let m = MockProver::run(k, &circuit, vec![vec![], e2]).map_err(|e| format!("synth:{e:?}"))?;
-                if m.verify().is_ok() {
+                if verify_ok(&m) {
                     all = false;
                 }
             }
@@ -252,6 +252,23 @@ pub fn run_one(sc: &J) -> J {
     }
     res["enc"] = json!(enc.map(|e| e.iter().take(6).map(fhex).collect::<Vec<_>>()));
     res
+}
+
+/// MockProver::verify, with one kind of panic turned into the verdict it interrupts: the checker found a violated gate and,
+/// while RENDERING that failure, hit `unreachable!()` in proofs/src/dev/util.rs (cell_value on a queried cell that was never
+/// assigned and is masked by a zero factor). The failure exists, so the verdict is "not satisfied"; any other panic is re-raised.
+fn verify_ok(mp: &MockProver<F>) -> bool {
+    match catch_unwind(AssertUnwindSafe(|| mp.verify().is_ok())) {
+        Ok(b) => b,
+        Err(p) => {
+            let loc = crate::LAST_PANIC.lock().map(|g| g.clone()).unwrap_or_default();
+            if loc.contains("proofs/src/dev/util.rs") {
+                false
+            } else {
+                std::panic::resume_unwind(p)
+            }
+        }
+    }
 }
 
 pub fn main(args: &[String]) -> i32 {
